@@ -472,6 +472,8 @@ def ty_lean(t):
         return "Option Nat"
     if isinstance(t, tuple) and t[0] == "tuple":
         return "(" + " × ".join(ty_lean(x) for x in t[1]) + ")"
+    if isinstance(t, tuple) and t[0] == "enum":
+        return t[1]
     if isinstance(t, tuple) and t[0] == "opt":
         inner = ty_lean(t[1])
         return "Option " + (f"({inner})" if " " in inner else inner)
@@ -1041,6 +1043,31 @@ class Emit:
             if any(t != tys[0] for t in tys):
                 raise Unsupported("match arms of different types")
             return f"match {stxt} with\n" + "\n".join(f"| {p_} =>\n{indent(b_)}" for p_, b_ in arms), tys[0]
+        if k == "match" and e[1][0] == "path" and isinstance(env.get(e[1][1]), tuple) and env[e[1][1]][0] == "enum":
+            # `match method { Enum::A => …, Enum::B => … }` on an enum-typed parameter
+            arms, tys = [], []
+            for pats, body in e[2]:
+                if len(pats) != 1 or not isinstance(pats[0], str) or pats[0] == "_":
+                    raise Unsupported("enum match pattern")
+                ctor = pats[0].split("::")[-1]
+                btxt, bty = self.stmts(body[1], body[2], dict(env), outs, expect)
+                arms.append(("." + ctor[0].lower() + ctor[1:], btxt))
+                tys.append(bty)
+            if any(t != tys[0] for t in tys):
+                want = None
+                if set(tys) <= {"Rat", "OptF", "Elem"}:
+                    want = "OptF"
+                if want is None:
+                    raise Unsupported("match arms of different types")
+                arms, tys = [], []
+                for pats, body in e[2]:
+                    ctor = pats[0].split("::")[-1]
+                    btxt, bty = self.stmts(body[1], body[2], dict(env), outs, want)
+                    arms.append(("." + ctor[0].lower() + ctor[1:], btxt))
+                    tys.append(bty)
+                if any(t != tys[0] for t in tys):
+                    raise Unsupported("match arms of different types")
+            return f"match {lname(e[1][1])} with\n" + "\n".join(f"| {p_} =>\n{indent(b_)}" for p_, b_ in arms), tys[0]
         if k == "match":
             stxt, sty = self.ex0(e[1], env)
             if sty != "Ord":
